@@ -640,6 +640,29 @@ func (a *vfActor) exec(ctx vivid.ActorContext, c *vfCmd) {
 		if r := w.ref(k.Target); r != nil {
 			ctx.Kill(r, k.Poison, "vf")
 		}
+	case "respawn":
+		// kill a child and re-create it under the same name inside this very handler: ActorOf is retried until the path is
+		// free, so the new child exists before this actor handles the old child's OnKilled (a stale death notice for a name
+		// that designates a live child again)
+		cs := c.Arg.(*vfSpec)
+		if r := w.ref(cs.Name); r != nil {
+			ctx.Kill(r, false, "vf-respawn")
+			for try := 0; try < 200000; try++ {
+				child := w.newActor(cs)
+				ref, err := ctx.ActorOf(child, w.options(cs)...)
+				if err == nil {
+					w.mu.Lock()
+					w.refs[cs.Name] = ref
+					w.mu.Unlock()
+					w.add(vfEv{Kind: "api", Path: ctx.Ref().GetPath(), Msg: "respawn-ok", ID: -1, Aux: ref.GetPath()})
+					break
+				}
+				w.mu.Lock()
+				w.badInst[child.inst] = true
+				w.mu.Unlock()
+				time.Sleep(time.Nanosecond)
+			}
+		}
 	case "killself":
 		ctx.Kill(ctx.Ref(), c.Arg.(bool), "vf-self")
 	case "watch":
